@@ -27,6 +27,7 @@ import Nervus.Proofs.CypherAgg
 import Nervus.Proofs.CypherCore
 import Nervus.Proofs.CypherF1a
 import Nervus.Proofs.CypherF1aDir
+import Nervus.Proofs.CypherF1b
 import Nervus.Model.QRun
 import Nervus.Model.QAlgebra
 namespace Nervus.Props.C11
@@ -101,6 +102,31 @@ theorem C11_F1a_hop (A : Algebra) (env : Env) (hsym : EqSymm A) (hg : env.g.Node
     Agrees (Exec.run A env (.match_ false [hopPatD dir a la ev rels d dl] :: tail))
       (Spec.denote A env (.match_ false [hopPatD dir a la ev rels d dl] :: tail)) :=
   f1a_hop_agrees A env hsym hg hnp dir a d la dl rels ev tail hrels had hev hap hdp hep hin hc hs
+
+/-- **F1b, first half of the OPTIONAL MATCH step** — `MATCH (a:La) OPTIONAL MATCH (a)-[ev:T…]-(d:Ld)` (any
+    direction, tail not starting with WHERE) compiles to `OptionalWhereFixup (plan of the first MATCH) (one hop from the
+    bound variable over that plan, hidden path column pa1) aliases`, and the tail is compiled from that loop state -/
+theorem C11_F1b_compile (dir : Dir) (a d : String) (la dl rels : List String) (ev : Option String) (tail : Query)
+    (had : a ≠ d) (hev : ∀ e, ev = some e → e ≠ a) (hnw : ∀ w rest, tail ≠ .where_ w :: rest) :
+    ∃ st, Compile.compileClauses
+        (.match_ false [⟨⟨some a, la, []⟩, []⟩] :: .match_ true [hopPatD dir a [] ev rels d dl] :: tail) {} =
+      Compile.compileClauses tail { plan := some (optPlan dir a la ev rels d dl), st := st, pending := none } :=
+  compileClauses_F1b dir a d la dl rels ev tail had hev hnw
+
+/-- … its rows: every node row of the first MATCH keeps exactly its own expansions, or — when it has none — is
+    emitted once with the null aliases set to null (op6 instantiated for the compiled plan: the outer rows are
+    pairwise distinct because node ids are; an expansion carries its own outer row's binding and no other's); and the
+    null aliases are exactly the new variables `d` and `ev` -/
+theorem C11_F1b_rows (A : Algebra) (env : Env) (hg : env.g.NodesDistinct) (dir : Dir) (a d : String)
+    (la dl rels : List String) (ev : Option String) (had : a ≠ d) (hap : a ≠ pa1)
+    (hev : ∀ e, ev = some e → e ≠ a ∧ e ≠ d) :
+    Exec.exec A env (optPlan dir a la ev rels d dl) = .ok ((nodeRows0 A env a la).flatMap fun o =>
+      if (stepRowD env dir a rels ev d dl pa1 o).isEmpty then
+        [(optAliases dir a la ev rels d dl).foldl (fun r x => r.set x .null) o]
+      else stepRowD env dir a rels ev d dl pa1 o) ∧
+    ∀ x, x ∈ optAliases dir a la ev rels d dl ↔ (x = d ∨ ev = some x) :=
+  ⟨exec_optPlan A env hg dir a d la dl rels ev had hap (fun e he => (hev e he).1.symm),
+   mem_optAliases dir a d la dl rels ev had hev⟩
 
 /-- the reference's core clauses (no SKIP / LIMIT: `bagClauses`) respect "same bag of rows once the hidden
     path column is erased" — the relation between the rows of a MATCH plan and the reference's rows; with
